@@ -689,6 +689,9 @@ type ApiCase struct {
 
 const apiScript = `calls = calls + 1; a = hf(calls); b = other(); seenv = v; return [a, b, v, w];`
 
+// the same without a final return: the run ends by falling off the end
+const apiScriptNoReturn = `calls = calls + 1; a = hf(calls); b = other(); seenv = v;`
+
 func runApiCase(c *ApiCase) error {
 	r := eng.NewRunner(c.Script)
 	// model of the host-side bindings
@@ -715,9 +718,6 @@ func runApiCase(c *ApiCase) error {
 			r.E.SetVariable(s.Name, eng.ToObject(s.V))
 			vars[s.Name] = s.V
 		case "prepare":
-			if prepared {
-				continue // a second Prepare is outside the documented call order
-			}
 			if err, pan := r.Prepare(c.NoOpt); err != nil || pan != nil {
 				return fmt.Errorf("step %d: Prepare failed: %v %v", i, err, pan)
 			}
@@ -760,7 +760,9 @@ func runApiCase(c *ApiCase) error {
 				return fmt.Errorf("step %d: unexpected error: %v", i, res.Err)
 			}
 			want := lang.Array(fnVal["hf"], fnVal["other"], get("v"), get("w"))
-			if !lang.DeepEqual(res.Val, want) {
+			if c.Script == apiScriptNoReturn {
+				// nothing is returned; the variables are checked by later getvar steps
+			} else if !lang.DeepEqual(res.Val, want) {
 				return fmt.Errorf("step %d: the script returned %s; with the functions and variables given last it must return %s", i, res.Val.Describe(), want.Describe())
 			}
 			vars["a"], vars["b"], vars["seenv"] = fnVal["hf"], fnVal["other"], get("v")
@@ -787,11 +789,19 @@ func TestC20ApiOrders(t *testing.T) {
 	col := evid.New("C20", "apiorders", "")
 	rapidCheck(t, col, func(rt *rapid.T) {
 		c := &ApiCase{Prop: "C20", Kind: "api-order", Script: apiScript, NoOpt: rapid.Bool().Draw(rt, "noopt")}
+		if gen.Uniform(rt, "noreturn", 3) == 0 {
+			c.Script = apiScriptNoReturn
+		}
 		n := rapid.IntRange(3, 16).Draw(rt, "nsteps")
 		preparedAt := rapid.IntRange(0, n-1).Draw(rt, "prepareat")
+		again := -1
+		if rapid.Bool().Draw(rt, "prepareagain") {
+			again = rapid.IntRange(preparedAt, n-1).Draw(rt, "againat")
+			col.Class("prepared-more-than-once")
+		}
 		reAdded := false
 		for i := 0; i < n; i++ {
-			if i == preparedAt {
+			if i == preparedAt || i == again {
 				c.Steps = append(c.Steps, ApiStep{Op: "prepare"})
 			}
 			switch gen.Uniform(rt, "op", 8) {
